@@ -17,6 +17,7 @@
 From Coq Require Import List Bool Arith.
 From KdV Require Import Res.Tokens Res.TokensProofs Res.OomModel Res.OomSpec Res.OomProofs.
 From KdV Require Import Res.ResModel Res.ResProofs.
+From KdV Require Import Res.SysLayout Res.SysLayoutProofs Res.OpenPaths Res.OpenPathsProofs.
 Import ListNotations.
 
 (** fcache_get (mmap path, read path, policy fallback; repaired): a successful
@@ -160,6 +161,48 @@ Theorem C15_diskdump_page_early_return_refuted :
     r = false /\ exists x, summary s = Some x /\ pins x <> [].
 Proof. exact diskdump_page_early_return_witness. Qed.
 Print Assumptions C15_diskdump_page_early_return_refuted.
+
+(** flatmap_file_init (flatmap.c): for every sequence of segment headers (good
+    ones, the END marker, a bad or unreadable header anywhere, the file ending
+    without END), every pattern of growing reallocs and every allocation
+    schedule: when the function returns - success or any error exit - the
+    translation map and the offset array are reachable from the file map, so
+    flatmap_file_cleanup releases them *)
+Theorem C15_flatmap_init_owned : forall inc segs s T0 L K P F,
+  PSt s T0 L K P F ->
+  wp (flatmap_file_init false inc segs)
+     (fun r s' => snd r = [] /\ exists F', PSt s' (ftoks (snd (fst r)) ++ T0) L K P F' /\
+                  (fst (fst r) = true -> F' = F)) s.
+Proof. exact flatmap_init_owned. Qed.
+Print Assumptions C15_flatmap_init_owned.
+
+Theorem C15_flatmap_session_clean : forall inc segs sch,
+  let '(_, tr, _) := run (flat_session false inc segs) sch in clean tr.
+Proof. exact flat_session_clean. Qed.
+Print Assumptions C15_flatmap_session_clean.
+
+(** storing the array into the file map only on the success exit loses it on the
+    error exits behind the first good segment *)
+Theorem C15_flatmap_late_assign_refuted :
+  exists segs, let '(ok, tr, _) := run (flat_session true 32 segs) [] in ok = false /\ ~ balanced tr.
+Proof. exact flat_late_witness. Qed.
+Print Assumptions C15_flatmap_late_assign_refuted.
+
+(** walk_elf_notes (elfdump.c): whatever the note callback answers for each
+    PT_NOTE segment, and whatever fails while its chunk is obtained, no
+    file-cache reference and no buffer is kept *)
+Theorem C15_elf_notes_chunk_balanced : forall segs s L K P F,
+  Forall (fun sg => ns_big sg = false -> length (ns_pages sg) <= 2) segs ->
+  St s L K P F ->
+  wp (walk_elf_notes false segs) (fun _ s' => exists F', St s' L K P F') s.
+Proof. exact walk_elf_notes_balanced. Qed.
+Print Assumptions C15_elf_notes_chunk_balanced.
+
+Theorem C15_elf_notes_put_late_refuted :
+  exists segs, let '(r, s) := walk_elf_notes true segs (init [] 0 []) in
+               r = false /\ exists x, summary s = Some x /\ pins x <> [].
+Proof. exact walk_notes_put_late_witness. Qed.
+Print Assumptions C15_elf_notes_put_late_refuted.
 
 (** contexts: what kdump_new / kdump_clone took (memory, reference counts on
     the shared state, dictionary and translation, the lock) is given back by
